@@ -339,6 +339,9 @@ for n, h, c, f in _c10:
     if n == "len":
         ob("C10.len.cap6", ["C10"], "chess-movegen", "iter::kani_verif_c10::cap6::" + h, kind="bounded", bound="iterator with <= 6 entries", tier="thorough", flags="full", timeout=3600, mem_gb=5, functions=f, contract=c)
     ob("C10." + n, _pp, "chess-movegen", "iter::kani_verif_c10::cap18::" + h, kind="complete", tier="thorough", flags="full", timeout=14400, mem_gb=12, functions=f, contract=c + " — up to the real capacity of 18 entries")
+ob("C10.ctor", ["C10"], "chess-movegen", "iter::kani_verif_c10::c10_ctor", kind="complete", flags="full", timeout=1800, mem_gb=4,
+   functions=["Board::legals", "Board::legals_masked (wrapping of the entry list)"],
+   contract="spec-level lemma at the real capacity 18: an entry list in which every entry is non-empty and inside the mask (the last one possibly carrying unmasked castling destinations — C01 well_shaped clauses) wrapped with index 0 and a rested cursor satisfies wf, and view == pending restricted to the mask")
 ob("C10.cover", "C10", "chess-movegen", "iter::kani_verif_c10::cap6::c10_cover", kind="cover", flags="full", timeout=2400, mem_gb=8, contract="vacuity guard: 18 entries, mid-promotion cursor, knight promotion yielded, None with entries left")
 ob("C10.negtwin", "C10", "chess-movegen", "iter::kani_verif_c10::cap6::c10_negtwin", kind="negtwin", expect="refuted", flags="full", timeout=2400, mem_gb=8, contract="negated twin of len: must be refuted")
 ob("C10.K1.witness", "C10", "chess-movegen", "iter::kani_verif_c10::c10_k1_witness", kind="witness", expect="refuted", flags="full", timeout=900, mem_gb=4,
@@ -414,6 +417,9 @@ for k, d in _kinds:
        contract="incremental check/pin sets, kind %s, foreach-loop body: re-scan ranges over exactly the successor's pinner set; for an ARBITRARY member: out.checkers = leaper checkers of the successor + {s} iff nothing between, out.pinned = the single blocker (with C03.pin_lemma: == from-scratch spec of the successor)" % d)
 ob("C02.cache.loop2", ["C03", "C02"], "chess-movegen", "kani_verif_c02::c02_cache_loop2", tier="thorough", kind="bounded", bound="successor has <= 2 sliders aligned with the enemy king (loop skeleton)", flags="full", timeout=3600, mem_gb=8, stubs=_LK5 + ["Board::xor -> contract stub (C04.xor)"], functions=_MK,
    contract="real iterator, every move kind: out.checkers/out.pinned == from-scratch spec of the successor at every square; successor position and hash delta as well")
+ob("C02.valid_preserved", ["C02", "C03"], "chess-movegen", "kani_verif_c02::c02_valid_preserved", kind="complete", flags="func", timeout=2400, mem_gb=6,
+   functions=["(spec only) valid(P) and legal(P, mv) => valid(apply(P, mv))"],
+   contract="spec-only lemma for the induction over histories: a legal move from a valid position leads to a valid position (placement, king/piece counts, mover not left in check, rights consistent, e.p. marker consistent, no back-rank pawn)")
 ob("C02.rights_table", ["C02", "C07"], "chess-movegen", "kani_verif_c02::c02_rights_table", kind="complete", flags="full", timeout=600, mem_gb=2, functions=["CastleRights::remove_for_sq", "CastleRights::to_index", "CastleRights::contains", "CastleRights::with"],
    contract="remove_for_sq(colour, sq) for all 16 x 2 x 64 inputs clears exactly the rights whose king or rook home square is sq for that colour; nibble stays < 16")
 for n in ("move_new", "move_mut", "move_into"):
